@@ -182,18 +182,33 @@ Proof.
 Qed.
 
 (* C02: the worker functions in progress (this job's and everybody else's) never exceed
-   curProcessing, and a reservation leaves curProcessing at most at the limit its guard read *)
+   curProcessing, and a reservation that goes on leaves curProcessing within the limit it loaded *)
 Theorem running_le_cur s : DReachable s -> othrun s + (match jl s with JRun => 1 | _ => 0 end) <= cur s.
 Proof.
   intros R. apply dreachable_inv in R. pose proof (d_cur s R). pose proof (d_othrun s R).
   destruct (jl s); cbn in *; lia.
 Qed.
 
-Theorem reserve_within_limit s a c s' : dstep s (DReserve a c) = Some s' -> cur s' <= c.
-Proof. intros H. dexpose s. ddestr H. dbools. cbn. lia. Qed.
+Theorem reserve_within_limit s n c s' :
+  dstep s (DReserve n c) = Some s' -> n <= c -> cur s' <= c /\ raw s' = S (raw s).
+Proof. intros H L. dexpose s. ddestr H; dbools; cbn; try lia. apply Nat.leb_gt in E0. lia. Qed.
+
+(* a reservation that finds curProcessing above the limit it loads can only be handed back: it is
+   never re-checked, never dequeues (both need [raw] / [okr]) *)
+Theorem reserve_over_limit_is_returned s n c s' :
+  dstep s (DReserve n c) = Some s' -> c < n ->
+  raw s' = raw s /\ okr s' = okr s /\ oth s' = oth s /\ jl s' = jl s /\ doomed s' = S (doomed s).
+Proof. intros H L. dexpose s. ddestr H; dbools; cbn; auto. lia. Qed.
+
+(* dequeuing takes a reservation whose limit check and status re-check both passed *)
+Theorem dequeue_needs_passed_reservation s e s' :
+  dstep s e = Some s' -> (e = DDeqJ \/ e = DDeqOtherSameQ \/ e = DDeqOtherQ) -> okr s = S (okr s').
+Proof.
+  intros H D. destruct D as [D|[D|D]]; subst e; dexpose s; ddestr H; cbn; reflexivity.
+Qed.
 
 Theorem cur_only_grows_at_reserve s e s' :
-  dstep s e = Some s' -> cur s' <= cur s \/ exists a c, e = DReserve a c.
+  dstep s e = Some s' -> cur s' <= cur s \/ exists n c, e = DReserve n c.
 Proof.
   intros H. dexpose s. destruct e; cbn in H; ddestr H; cbn; try (left; lia); right; eauto.
 Qed.
